@@ -755,8 +755,8 @@ var guardedBy = []struct{ typ, field, mutex string }{
 
 // Accesses that are exempt, with their reason. Keyed function/Type.field/kind.
 var guardedExempt = map[string]string{
-	"newFrame/frame.done/write":         "constructor: the frame is not yet shared",
-	"newFrame/frame.done/read":          "constructor reads the ancestor's done, which is only written by run() before the execution it belongs to starts",
+	"newFrame/frame.done/write":              "constructor: the frame is not yet shared",
+	"newFrame/frame.done/read":               "constructor reads the ancestor's done, which is only written by run() before the execution it belongs to starts",
 	"Interpreter.stop/Interpreter.done/read": "stop closes the channel installed by the *WithContext entry point that is calling it; that store happened-before (same goroutine)",
 }
 
